@@ -54,6 +54,13 @@ const (
 	O_CLOEXEC   = real.O_CLOEXEC
 	O_DIRECTORY = real.O_DIRECTORY
 	O_NOFOLLOW  = real.O_NOFOLLOW
+	O_NONBLOCK  = real.O_NONBLOCK
+	O_NDELAY    = real.O_NDELAY
+	O_SYNC      = real.O_SYNC
+	O_DSYNC     = real.O_DSYNC
+	O_NOCTTY    = real.O_NOCTTY
+	O_NOATIME   = real.O_NOATIME
+	O_ACCMODE   = real.O_ACCMODE
 )
 
 func conv(st *Stat_t, u *unix.Stat_t) {
